@@ -171,18 +171,17 @@ Section SPC.
     d_drift := edrift; d_warning := ewarning; d_has_warning_status := true; d_ninst := en |}.
 
   (* ------------------------------------------------------------------ ECDD-WT *)
-  (** control-limit polynomials [average_run_length_map]; coefficients times 100 as integers *)
-  Definition cl_coeffs (arl : Z) : list Z :=
-    (if arl =? 100 then [276; -623; 1812; -31245; 100218]
-     else if arl =? 400 then [397; -656; 4873; -33013; 84818]
-     else [117; 756; -2124; 11212; -98723])%Z.
-  Definition coef (z : Z) : num A := ofZ z / ofZ 100.
+  (** control-limit polynomials [average_run_length_map], written as the source writes them (left-associated sums
+      and differences of decimal literals times [np.power(p, k)]); a decimal literal d.dd is the correctly rounded
+      quotient of two exactly representable integers *)
+  Definition lit (a b : Z) : num A := ofZ a / ofZ b.
   Definition control_limit (arl : Z) (p : num A) : num A :=
-    match cl_coeffs arl with
-    | [c0; c1; c3; c5; c7] =>
-        (((coef c0 + coef c1 * p) + coef c3 * powN p 3) + coef c5 * powN p 5) + coef c7 * powN p 7
-    | _ => zero
-    end.
+    if (arl =? 100)%Z then
+      (((lit 276 100 - lit 623 100 * p) + lit 1812 100 * powN p 3) - lit 31245 100 * powN p 5) + lit 100218 100 * powN p 7
+    else if (arl =? 400)%Z then
+      (((lit 397 100 - lit 656 100 * p) + lit 4873 100 * powN p 3) - lit 33013 100 * powN p 5) + lit 84818 100 * powN p 7
+    else
+      (((lit 117 100 + lit 756 100 * p) - lit 2124 100 * powN p 3) + lit 11212 100 * powN p 5) - lit 98723 100 * powN p 7.
 
   Record ecdd_cfg := { ec_lambda : num A; ec_arl : Z; ec_warn : num A; ec_min : Z }.
   Record ecdd_st := { cn : Z; cp : mean_st A; cz : ewma_st A; cdrift : bool; cwarning : bool }.
